@@ -324,10 +324,13 @@ def rx(kind, pat, s):
     if isinstance(pat, Fmt) and len(pat.parts) == 3 and isinstance(pat.parts[1], (SStr, str)):
         a, lit, b = pat.parts
         lz = PL._term(lit)
+        premise = RX_LITERAL(lz)
+        if getattr(lit, "escaped_of", None) is not None:  # re.escape(L) matches exactly the literal L
+            lz, premise = PL._term(lit.escaped_of), z3.BoolVal(True)
         if a == "\\A(?:" and b == ")":
-            p.assume(SBool(z3.Implies(RX_LITERAL(lz), R["search"](pz, sz) == z3.PrefixOf(lz, sz))))
+            p.assume(SBool(z3.Implies(premise, R["search"](pz, sz) == z3.PrefixOf(lz, sz))))
         if a == "(?:" and b == ")\\Z":
-            p.assume(SBool(z3.Implies(RX_LITERAL(lz), R["search"](pz, sz) == z3.SuffixOf(lz, sz))))
+            p.assume(SBool(z3.Implies(premise, R["search"](pz, sz) == z3.SuffixOf(lz, sz))))
     return SBool(R[kind](pz, sz))
 
 
@@ -470,6 +473,19 @@ def install(I):
         return RxPattern(pattern)
 
     M[id(_re.compile)] = re_compile
+
+    RX_ESCAPE = z3.Function("rx_escape", z3.StringSort(), z3.StringSort())
+
+    def re_escape(I, pattern):
+        if isinstance(pattern, str):
+            return _re.escape(pattern)
+        if isinstance(pattern, SStr):
+            e = SStr(RX_ESCAPE(pattern.z))
+            e.escaped_of = pattern
+            return e
+        I.raise_py(TypeError, "expected str")
+
+    M[id(_re.escape)] = re_escape
 
     # numpy scalar constructors used as `.map(np_dtype.type)`
     for t in (np.int8, np.int16, np.int32, np.int64):
